@@ -124,6 +124,10 @@ def run_config(name, cwd, cargo_args, crates, extra_hash="", env_extra=None, qui
     if os.path.isdir(cdir) and os.path.exists(os.path.join(cdir, "DONE")):
         files = sorted(os.path.join(cdir, f) for f in os.listdir(cdir) if f.endswith(".jsonl"))
         if files:
+            try:
+                os.utime(os.path.join(cdir, "DONE"))      # mark as recently used
+            except OSError:
+                pass
             return Facts(name, files)
     out = tempfile.mkdtemp(prefix="cgv-out.", dir="/var/tmp")
     try:
@@ -189,9 +193,32 @@ def run_config(name, cwd, cargo_args, crates, extra_hash="", env_extra=None, qui
         except OSError:
             shutil.rmtree(tmpc, ignore_errors=True)
         files = sorted(os.path.join(cdir, f) for f in os.listdir(cdir) if f.endswith(".jsonl"))
+        prune_cache()
         return Facts(name, files)
     finally:
         shutil.rmtree(out, ignore_errors=True)
+
+
+CACHE_MAX_ENTRIES = 240     # one tree needs ~15 configurations; scratch trees of the self-test runs come and go
+
+
+def prune_cache():
+    """Least-recently-used eviction: the fact cache is keyed by tree content, so every mutant / patch run adds entries that are never
+    used again; without a bound the cache filled the disk (121 GB) during the regression runs."""
+    try:
+        ents = [os.path.join(CACHE, d) for d in os.listdir(CACHE) if not d.startswith("tmp.")]
+        if len(ents) <= CACHE_MAX_ENTRIES:
+            return
+        def stamp(d):
+            try:
+                return os.path.getmtime(os.path.join(d, "DONE"))
+            except OSError:
+                return 0
+        ents.sort(key=stamp)
+        for d in ents[:len(ents) - CACHE_MAX_ENTRIES * 3 // 4]:
+            shutil.rmtree(d, ignore_errors=True)
+    except OSError:
+        pass
 
 
 # ---- standard configurations over /repo -------------------------------------------------
